@@ -8,7 +8,21 @@ import (
 
 const dataPath = "data"
 
+// checkDBName refuses a database name that is not one plain directory name:
+// the name is used as a path element below the data directory.
+func checkDBName(db string) error {
+	name := strings.ToLower(db)
+	if name == "." || name == ".." || len(name) > 255 ||
+		strings.ContainsAny(name, "/\x00") || strings.ContainsRune(name, os.PathSeparator) {
+		return ErrInvalidDBName
+	}
+	return nil
+}
+
 func makeDBDir(db string) error {
+	if err := checkDBName(db); err != nil {
+		return err
+	}
 	err := os.MkdirAll(filepath.Join(dataPath, strings.ToLower(db)), 0755)
 	if !os.IsExist(err) {
 		return err
@@ -42,6 +56,9 @@ func dbFilePath(db string) (string, bool, error) {
 	if db == "" {
 		return "", false, ErrDBNotSelected
 	}
+	if err := checkDBName(db); err != nil {
+		return "", false, err
+	}
 
 	path := filepath.Join(dataPath, strings.ToLower(db), "tbl")
 
@@ -56,6 +73,9 @@ func dbFilePath(db string) (string, bool, error) {
 func walFilePath(db string) (string, bool, error) {
 	if db == "" {
 		return "", false, ErrDBNotSelected
+	}
+	if err := checkDBName(db); err != nil {
+		return "", false, err
 	}
 
 	path := filepath.Join(dataPath, strings.ToLower(db), "wal")
